@@ -397,11 +397,11 @@ Proof.
         match goal with |- context [with_hostname_slot ?c0 ?es0] =>
           destruct (with_slot_ok G' es0 c0 I') as (J1 & J2 & _) end.
         -- apply all_ok_app.
-           ++ destruct (bytes_eqb (h_name (cp_host c)) (h_prev (cp_host c))); [apply all_ok_nil|].
+           ++ rewrite ?host_announce_old in *. destruct (bytes_eqb (h_name (cp_host c)) (h_prev (cp_host c))); [apply all_ok_nil|].
               apply all_ok_cons_other; [intros; split; discriminate|apply all_ok_nil].
            ++ apply all_ok_cons_other; [intros; split; discriminate|apply all_ok_nil].
         -- intros ob sg n H _. apply in_app_iff in H as [H|[H|[]]]; [|discriminate].
-           destruct (bytes_eqb (h_name (cp_host c)) (h_prev (cp_host c))); [destruct H|].
+           rewrite ?host_announce_old in *. destruct (bytes_eqb (h_name (cp_host c)) (h_prev (cp_host c))); [destruct H|].
            destruct H as [H|[]]. injection H as _ _ <-. left; reflexivity.
         -- split; assumption.
       * (* re-assertion *)
